@@ -432,6 +432,9 @@ def netcdf_packing(repo, rep):
 
 
 def run(repo, rep, tier):
+    rep.rule("R-C11-12", "every parameter of the functions behind this property is read (writers): none is accepted and then ignored")
+    from .shared import unused_parameters
+    unused_parameters(repo, rep, "R-C11-12", ("wavespectra.output",), "writers")
     rep.rule("R-C11-1", "SWAN ASCII: keywords written are recognised; NODATA/ZERO/FACTOR cases; factor written then multiplied back; time format equal; unit line selects the identity branch")
     rep.rule("R-C11-2", "SWAN grid location order: slowest coordinate agrees between writer and reader")
     rep.rule("R-C11-3", "JSON: date format defaults and containers agree")
